@@ -179,8 +179,11 @@ let check_spec (case : string) (impl : string) : unit =
   let out = String.sub impl (k + 4) (String.length impl - k - 4) in
   if String.length out > 3 && String.sub out 0 3 = "PE:" then begin
     incr spec_checked;
-    let l0 = find_key impl "log=" in
-    let log = parse_forest (String.sub impl (l0 + 4) (k - l0 - 4)) in
+    (* the forest the specification is evaluated on carries the STRUCTURAL sign / atomicity (slog) when the harness gives it:
+       a state whose look-ahead bookkeeping is wrong must not be judged by its own account of the sign *)
+    let key = (try ignore (find_key impl " slog="); " slog=" with Failure _ -> " log=") in
+    let l0 = find_key impl key + String.length key in
+    let log = parse_forest (String.sub impl l0 (k - l0)) in
     let body = String.sub out 3 (String.length out - 3) in
     let a = String.rindex body '@' in
     let at = int_of_string (String.sub body (a + 1) (String.length body - a - 1)) in
@@ -219,8 +222,12 @@ let () =
     match split_tab line with
     | ["CONTRACT"; case; msg] -> report "spec" case msg "property oracle evaluated on the real run"
     | ["VMDIFF"; case; vm; pr] -> report "vm" case vm pr
-    | [case; impl] ->
+    | [case; impl_full] ->
       incr n;
+      (* the model is compared with the observation without the structural forest *)
+      let impl = (match (try Some (find_key impl_full " slog=") with Failure _ -> None) with
+        | None -> impl_full
+        | Some a -> let b = find_key impl_full " || " in String.sub impl_full 0 a ^ String.sub impl_full b (String.length impl_full - b)) in
       (* "Diverged" on the Rust side = its closure-invocation budget ran out (nothing to compare: the model bounds depth, not work) *)
       if impl = "Diverged" then incr skipped else
       let m = (try eval_case case false with Failure e -> "RUNNER-ERROR " ^ e | Stack_overflow -> "Diverged") in
@@ -228,7 +235,7 @@ let () =
         let m2 = (try eval_case case true with Failure e -> "RUNNER-ERROR " ^ e | Stack_overflow -> "Diverged") in
         if m2 <> impl then report "model" case impl m
       end;
-      (try if String.length impl > 4 && String.sub impl 0 4 = "Err " then check_spec case impl
+      (try if String.length impl_full > 4 && String.sub impl_full 0 4 = "Err " then check_spec case impl_full
        with Failure e -> report "spec" case impl ("RUNNER-ERROR " ^ e) | Not_found -> report "spec" case impl "RUNNER-ERROR parse")
     | _ -> ());
   Printf.printf "#RUNNER\tcases=%d\tmismatches=%d\tspec_checked=%d\tknown_class=%d\tbudget_skipped=%d\n" !n !mismatches !spec_checked !known !skipped
